@@ -194,7 +194,7 @@ class Model:
                 out.append(s)
         return out
 
-    def init_run(self, cname, entry=None, partvars=()):
+    def init_run(self, cname, entry=None, partvars=(), exact=False):
         rel, c, f, fn = self.expand_init(cname)
         st = entry.copy() if entry is not None else State()
         if entry is None:
@@ -208,9 +208,11 @@ class Model:
                     st.enum_meet(p, "in", ["True", "False"])
         names = {n.id for n in ast.walk(fn) if isinstance(n, ast.Name) and n.id.split("@")[0] == "max_n"}
         pv = sorted(names) + list(partvars)
-        it = Interp(fn, entry=st, partvars=pv, finalize_havoc=False)
+        it = Interp(fn, entry=st, partvars=pv, finalize_havoc=False,
+                    record_calls=("hrevolve", "disk_revolve", "periodic_disk_revolve", "revolve", "allocate_snapshots"))
         it.partvars = tuple(pv) + ("self._max_n",)
         it.none_part = tuple(pv)
+        it.exact_minmax = exact
         it.run()
         return rel, c, f, it
 
